@@ -312,6 +312,24 @@ def run_case(r, obs):
             got = list(rv.run(iter(xs)))
             obs.check(got == list(reversed(xs)), "reverse-second-run-differs",
                       "second run of one Reverse instance on %r = %r" % (xs, got))
+            # the flow given as a list that its owner changes while the result is being read:
+            # reversed(list(xs)) works on what the flow held when it was read
+            for change in ("clear", "pop-front", "append", "refill"):
+                ys = list(range(n))
+                g = lena.flow.Reverse().run(ys)
+                gotr = list(itertools.islice(g, 1))
+                if change == "clear":
+                    del ys[:]
+                elif change == "pop-front" and ys:
+                    ys.pop(0)
+                elif change == "append":
+                    ys.append(99)
+                else:
+                    ys[:] = [7] * len(ys)
+                gotr += list(g)
+                obs.check(gotr == list(reversed(range(n))), "reverse-differs:list-changed-while-read",
+                          "Reverse.run(list %r), the list %s after the first result was taken: %r, "
+                          "expected %r" % (list(range(n)), change, gotr, list(reversed(range(n)))))
             got = list(lena.flow.Reverse().run(xs))   # a list, not an iterator
             obs.check(got == list(reversed(xs)) and xs == list(range(n)),
                       "reverse-differs", "Reverse.run(list %r) = %r" % (xs, got))
